@@ -2,5 +2,5 @@ SPECIFICATION TSpec
 CONSTANTS
   SwapRefreshesNormals = TRUE
   MergeKeepsFourNodes = TRUE
-INVARIANTS P_NoError P_Volume P_BBox P_Area P_Centroid P_Orientation P_LongestAxis
+INVARIANTS P_NoError P_Volume P_BBox P_Area P_Centroid P_Orientation P_LongestAxis P_History
 CHECK_DEADLOCK FALSE
